@@ -828,13 +828,17 @@ func (c *Ctx) recursionShapes(rule string) map[*ssa.Function]string {
 		}
 	}
 	// closures of the resolution pipeline that descend the checked tree: the structure check itself and URI assignment
+	// (closures, or unexported functions and methods when the traversal was written that way)
 	for _, fn := range c.Closure(rule, "RES").Sorted() {
-		if fn.Parent() == nil {
+		if fn.Parent() == nil && (fn.Object() == nil || fn.Object().Exported() || !c.P.InPkg(fn)) {
+			continue
+		}
+		if !c.P.InPkg(fn) {
 			continue
 		}
 		usesSeen, storesBase := false, false
-		core.EachInstr(fn, func(i ssa.Instruction) {
-			switch x := i.(type) {
+		for _, fi := range c.familyInstrs(fn) {
+			switch x := fi.I.(type) {
 			case *ssa.Lookup:
 				if c.isMapTo(x.X.Type(), "resolvedInfo") && x.CommaOk {
 					usesSeen = true
@@ -844,8 +848,14 @@ func (c *Ctx) recursionShapes(rule string) map[*ssa.Function]string {
 					storesBase = true
 				}
 			}
-		})
-		if usesSeen && len(fn.Params) > 0 && tReflectValue(fn.Params[0].Type()) {
+		}
+		hasValueParam := false
+		for _, p := range fn.Params {
+			if tReflectValue(p.Type()) {
+				hasValueParam = true
+			}
+		}
+		if usesSeen && hasValueParam {
 			add(fn, "seen table: C10/tree-check")
 		}
 		if storesBase {
